@@ -196,6 +196,36 @@ next:
 	return ""
 }
 
+// LiveUnder returns up to max live keys that start with prefix, in slot order;
+// CountUnder their number.
+func (f *fakeRedis) LiveUnder(prefix string, max int) []string {
+	f.mu.Lock()
+	defer f.mu.Unlock()
+	var out []string
+	now := f.now()
+	for _, k := range f.slots {
+		if len(out) >= max {
+			break
+		}
+		if k != "" && strings.HasPrefix(k, prefix) && !f.data[k].expired(now) {
+			out = append(out, k)
+		}
+	}
+	return out
+}
+
+func (f *fakeRedis) CountUnder(prefix string) int {
+	f.mu.Lock()
+	defer f.mu.Unlock()
+	n, now := 0, f.now()
+	for _, k := range f.slots {
+		if k != "" && strings.HasPrefix(k, prefix) && !f.data[k].expired(now) {
+			n++
+		}
+	}
+	return n
+}
+
 func (f *fakeRedis) logf(format string, a ...any) {
 	if len(f.log) >= 200 {
 		f.log = f.log[100:]
@@ -452,20 +482,20 @@ func (f *fakeRedis) ScanLayout(match string) []int {
 	return pages
 }
 
-// globMatch implements the subset of Redis glob patterns used here: '*', '?',
-// '\' escapes and literals.
+// globMatch implements Redis' glob patterns (util.c, stringmatchlen, case sensitive): '*', '?', '[...]' classes with
+// '^' negation, 'a-z' ranges and '\\' escapes inside, '\\' escapes outside, everything else literal.
 func globMatch(p, s string) bool {
 	for len(p) > 0 {
 		switch p[0] {
 		case '*':
-			for len(p) > 0 && p[0] == '*' {
+			for len(p) > 1 && p[1] == '*' {
 				p = p[1:]
 			}
-			if len(p) == 0 {
+			if len(p) == 1 {
 				return true
 			}
 			for i := 0; i <= len(s); i++ {
-				if globMatch(p, s[i:]) {
+				if globMatch(p[1:], s[i:]) {
 					return true
 				}
 			}
@@ -474,8 +504,55 @@ func globMatch(p, s string) bool {
 			if len(s) == 0 {
 				return false
 			}
+			s = s[1:]
+		case '[':
+			if len(s) == 0 {
+				return false
+			}
+			q := p[1:]
+			not := len(q) > 0 && q[0] == '^'
+			if not {
+				q = q[1:]
+			}
+			match := false
+			for {
+				if len(q) >= 2 && q[0] == '\\' {
+					q = q[1:]
+					if q[0] == s[0] {
+						match = true
+					}
+				} else if len(q) > 0 && q[0] == ']' {
+					break
+				} else if len(q) == 0 {
+					// unterminated class: Redis steps back and ends the class at the end of the pattern
+					break
+				} else if len(q) >= 3 && q[1] == '-' {
+					lo, hi := q[0], q[2]
+					if lo > hi {
+						lo, hi = hi, lo
+					}
+					q = q[2:]
+					if s[0] >= lo && s[0] <= hi {
+						match = true
+					}
+				} else if q[0] == s[0] {
+					match = true
+				}
+				q = q[1:]
+			}
+			if not {
+				match = !match
+			}
+			if !match {
+				return false
+			}
+			s = s[1:]
+			if len(q) == 0 {
+				return len(s) == 0
+			}
+			p = q // q[0] == ']'
 		case '\\':
-			if len(p) > 1 {
+			if len(p) >= 2 {
 				p = p[1:]
 			}
 			fallthrough
@@ -483,8 +560,15 @@ func globMatch(p, s string) bool {
 			if len(s) == 0 || s[0] != p[0] {
 				return false
 			}
+			s = s[1:]
 		}
-		p, s = p[1:], s[1:]
+		p = p[1:]
+		if len(s) == 0 {
+			for len(p) > 0 && p[0] == '*' {
+				p = p[1:]
+			}
+			break
+		}
 	}
-	return len(s) == 0
+	return len(p) == 0 && len(s) == 0
 }
